@@ -9,7 +9,8 @@ for mod in ("Layout", "OutMap"):
 specs = sorted(f[:-4] for f in os.listdir(tlc.SPEC_DIR) if f.endswith(".tla"))
 proofs = [s for s in specs if "EXTENDS" in open(os.path.join(tlc.SPEC_DIR, s + ".tla")).read() and ", TLAPS" in open(os.path.join(tlc.SPEC_DIR, s + ".tla")).read()]
 for s in proofs:  # proof modules (EXTENDS TLAPS) are checked by the proof manager, not by SANY alone
-    p = subprocess.run(["tlapm", "--cleanfp", s + ".tla"], cwd=tlc.SPEC_DIR, stdout=subprocess.PIPE, stderr=subprocess.STDOUT, text=True)
+    from harness import tlaps
+    p = tlaps._tlapm(s, tlc.SPEC_DIR)   # (own process group: back-end provers that outlive their time-out are killed afterwards)
     if "obligations proved" not in p.stdout:
         print(p.stdout[-2000:]); sys.exit(f"tlapm failed on {s}")
     print(s, p.stdout.strip().splitlines()[-1])
